@@ -411,14 +411,49 @@ def _cls_name(e):
     return None
 
 
+def _cls_key(e, ctx):
+    """Key of an enum class expression in ctx.enums: the qualified name (Element.Access) if known, else the simple one."""
+    if e[0] == 'attr' and e[1][0] in ('name', 'attr'):
+        outer = _cls_name(e[1])
+        if outer is not None and f"{outer}.{e[2]}" in ctx.enums:
+            return f"{outer}.{e[2]}"
+    cn = _cls_name(e)
+    return cn if cn in ctx.enums else cn
+
+
+def _enum_method(ctx, recv, meth):
+    """<enum member or Enum(x)>.meth() for a single-return method of a repository enum: its body with self := recv."""
+    key = None
+    if recv[0] == 'enum':
+        key = recv[1]
+    elif recv[0] == 'call' and len(recv[2]) == 1 and not recv[3]:
+        key = _cls_key(recv[1], ctx)
+    body = ctx.enums.get('@methods', {}).get((key, meth)) if key is not None else None
+    if body is None:
+        return None
+    SELF = ('name', '@self')
+    tab = ctx.enums.get(key, {})
+
+    out = subst(from_ast(body, {'self': SELF}), lambda x: ('enum', key, x[2], tab[x[2]])
+                if x[0] == 'attr' and x[1] == SELF and x[2] in tab else None)
+    return subst(out, lambda x: recv if x == SELF else None)
+
+
 def _norm1(e, ctx):
     k = e[0]
     if e in ctx.aliases:
         return ctx.aliases[e]
+    if k == 'cmp' and e[1] in ('==', '!=', 'is') and e[2][0] == 'enum' and e[3][0] == 'enum' and e[2][1] == e[3][1]:
+        same = e[2][2] == e[3][2]
+        return ('const', same if e[1] != '!=' else not same)
+    if k == 'call' and e[1][0] == 'attr' and not e[2] and not e[3] and e[1][1][0] in ('enum', 'call'):
+        r = _enum_method(ctx, e[1][1], e[1][2])
+        if r is not None:
+            return r
     if k == 'attr':
         if e[1][0] == 'slice' and e[2] in ('start', 'stop', 'step'):
             return e[1][{'start': 1, 'stop': 2, 'step': 3}[e[2]]]
-        cn = _cls_name(e[1])
+        cn = _cls_key(e[1], ctx)
         if cn is not None:
             m = _enum_member(ctx, cn, e[2])
             if m is not None:
@@ -435,8 +470,8 @@ def _norm1(e, ctx):
                     flat.append(a)
             return ('call', fn, tuple(flat), kwargs)
         # Enum(value) -> member
-        cn = _cls_name(fn)
-        if cn in ctx.enums and len(args) == 1 and not kwargs:
+        cn = _cls_key(fn, ctx)
+        if cn in ctx.enums and cn != '@methods' and len(args) == 1 and not kwargs:
             a = args[0]
             if a[0] == 'enum':
                 return a if a[1] == cn else None
@@ -629,6 +664,14 @@ def _norm1(e, ctx):
                 flat.extend(x[1])
             else:
                 flat.append(x)
+        absorbing = ('const', k == 'or')
+        if absorbing in flat:
+            return absorbing
+        flat = [x for x in flat if x != ('const', k != 'or')]
+        if not flat:
+            return ('const', k != 'or')
+        if len(flat) == 1:
+            return flat[0]
         flat.sort(key=_sort_key)
         return (k, tuple(flat))
     if k == 'sub':
